@@ -213,6 +213,8 @@ func (m *EncryptMessage[T]) Decrypt(encryptor key.Encryptor, externalData []byte
 	if err != nil {
 		return err
 	}
+	var zero T
+	m.Payload = zero // a reused message must not keep the previous payload
 	if len(plaintext) > 0 {
 		switch any(m.Payload).(type) {
 		case []byte:
